@@ -121,9 +121,20 @@ def cases(ctx):
         first = next(iter(defines))
         body += (f"{{\n.dw {first}\n.scope zz_ds {{\n.db {first} & 0xFF\n}}\n}}\n.macro zz_dm() {{\n.dl {first}\n}}\nzz_dm()\n"
                  f".for zz_di := 0, {first} & 3 {{\n.db zz_di\n}}\n.if {first} {{\n.db 0xD1\n}} else {{\n.db 0xD0\n}}\n")
+        # the -D name reused as an inner definition (block constant, macro parameter, loop counter, label of a named
+        # scope): the inner definition wins inside its scope and the -D value is back behind it
+        sh = i % 5
+        if sh == 0:
+            body += f"{{\n{first} := 0x77\n.dw {first}\n{{\n.db {first} & 0xFF\n}}\n}}\n.dw {first}\n"
+        elif sh == 1:
+            body += f".macro zz_sh({first}) {{\n.dw {first}\n.db {first} + 1\n}}\nzz_sh(0x66)\n.dw {first}\nzz_sh({first} + 2)\n"
+        elif sh == 2:
+            body += f".for {first} := 1, 3 {{\n.db {first}\n}}\n.dw {first}\n"
+        elif sh == 3:
+            body += f".scope zz_sc {{\nnop\n{first}:\n.dl {first}\n}}\n.dl {first}, zz_sc.{first}\n"
         prefix = "".join(f"{k} := {v:#x}\n" for k, v in defines.items())
-        out.append({"kind": f"define-twin:{mapping}:{len(defines)}D", "rom": mapping, "mapping": mapping, "format": "ips", "copier": False,
-                    "defines": dict(defines), "src": body, "api": True, "cli": i < 6,
+        out.append({"kind": f"define-twin:{mapping}:{len(defines)}D:sh{sh}", "rom": mapping, "mapping": mapping, "format": "ips", "copier": False,
+                    "defines": dict(defines), "src": body, "api": True, "cli": i < 10 or i % 4 == 0,
                     "cli_defines": {k: (hex(v) if v > 9 else str(v)) for k, v in defines.items()},
                     "twin": {"src": prefix + body, "rom": mapping, "files": {}}, "spec": {"t": "twin", "labels": True}})
     # -D values given as expressions, a later one using an earlier one, and malformed ones (the command line must fail)
